@@ -2,7 +2,6 @@
 * Unless explicitly stated otherwise all files in this repository are licensed under the Apache-2.0 License.
 * This product includes software developed at Datadog (https://www.datadoghq.com/). Copyright 2022 Datadog, Inc.
 **/
-use swc_common::DUMMY_SP;
 use swc_ecma_ast::*;
 use swc_ecma_visit::VisitMutWith;
 
@@ -10,6 +9,7 @@ use crate::{
     transform::assign_add_transform::AssignOp::Assign,
     visitor::{
         ident_provider::IdentKind, operation_transform_visitor::OperationTransformVisitor,
+        visitor_util::get_dd_paren_span,
     },
 };
 
@@ -108,7 +108,7 @@ impl AssignAddTransform {
                     } else {
                         target_assignations.push(new_assign);
                         TransformResult::modified(Expr::Paren(ParenExpr {
-                            span: DUMMY_SP,
+                            span: get_dd_paren_span(&span),
                             expr: Box::new(Expr::Seq(SeqExpr {
                                 span,
                                 exprs: target_assignations.into_iter().map(Box::new).collect(),
